@@ -53,6 +53,8 @@ def instances(tier):
         out.append({"kind": "ability_stride", "gen": g, "delta": 2})
         for what in ("version", "error"):
             out.append({"kind": "ext_inner_length", "gen": g, "what": what})
+        if g == 4:
+            out.append({"kind": "embedded_image", "gen": 4})
         out.append({"kind": "stride", "gen": 5, "delta": 3 if g == 4 else 6, "what": "zone"})
         out.append({"kind": "stride", "gen": 5, "delta": 2 if g == 4 else 5, "what": "ac"})
         out.append({"kind": "stride", "gen": 5, "delta": 1 if g == 4 else 4, "what": "timer"})
@@ -190,6 +192,51 @@ def _redundant_byte(ctx, p):
     ctx.check(ok, "free.header_as_reference", known=[("KF-C17-1", True)],
               detail={"length_counts_inserted_byte": counted, "delivered": len(first), "names": repr(names), "conns": conns})
     ctx.check(not fails, "free.task_survives", detail="unhandled exception in the receive task")
+    for lab in expect_labels("quick"):
+        ctx.reach(lab)
+
+
+def _embedded_image(ctx, p):
+    """An AT4 frame of an unknown type whose payload happens to contain the byte image of a complete, valid group-status
+    frame; its length field arrives damaged (any smaller value, solver-chosen). The reference receiver reads the announced
+    number of bytes, finds the check bytes wrong and gives the connection up: nothing that follows on it is a frame, so
+    nothing is delivered from it - in particular not the embedded image, which the console never sent as a message."""
+    from ref import at4 as r4
+    g = Gen(4)
+    inner = framing.frame(4, 0xB0, 0x80, 0x33, 0x2B, r4.build_group_status(3, 1, 0, 50, 0, 0, 22, 0, 0, 0))
+    filler = [0x01, 0x02, 0x03, 0x04]
+    payload = filler + list(inner) + [0x09, 0x08]
+    good = framing.frame(4, 0xB0, 0x80, 0x21, 0x45, payload)
+    n = len(payload)
+    dl = ctx.int("damaged_length", 0, n - 1)
+    stream = list(good)
+    stream[6], stream[7] = (dl >> 8) & 0xFF, dl & 0xFF
+    probe = framing.frame(4, 0xB0, 0x80, 9, 0x78, [1, 2, 3])
+    with Rig(ctx, g) as rig:
+        def on_accept(conn):
+            if conn.index == 0:
+                conn.send(SymBytes(stream) if ctx.symbolic else bytes(int(b) for b in stream))
+            else:
+                conn.send(bytes(probe))
+        rig.net.on_accept = on_accept
+        rig.spawn(rig.sock.open_socket())
+        rig.loop.vt_run(10.25)
+        got = list(rig.received)
+        first = [m for _, h, m in got if getattr(m, "unsupported_id", None) != 0x78]
+        probes = [m for _, h, m in got if getattr(m, "unsupported_id", None) == 0x78]
+        k = dl.__index__() if isinstance(dl, SymInt) else dl           # (the receiver has concretised it by now: one path per value)
+        raw = [int(b) for b in good]
+        raw[6], raw[7] = (k >> 8) & 0xFF, k & 0xFF
+        ref_accepts = list(refcrc.check_bytes(raw[2:8 + k])) == raw[8 + k:10 + k]
+        ctx.observe("delivered", len(first))
+        detail = {"damaged_length": k, "delivered": [type(m).__name__ for m in first], "conns": len(rig.net.conns)}
+        if not ref_accepts:
+            ctx.check(first == [], "free.header_as_reference", detail=dict(detail, why="something was delivered from a connection whose first frame fails its check bytes"))
+            ctx.check(len(probes) >= 1 and rig.net.max_open <= 1 and rig.net.conns[0].client_closed, "free.recovers", detail=detail)
+        else:
+            ctx.reach("free.header_as_reference")
+            ctx.reach("free.recovers")
+        ctx.check(not rig.task_failures(), "free.task_survives", detail="unhandled exception in the receive task")
     for lab in expect_labels("quick"):
         ctx.reach(lab)
 
